@@ -637,11 +637,11 @@ impl<'a> BlockGen<'a> {
     /// temporary defined and used by the following operation
     fn temp_chain(&mut self) -> Vec<Op> {
         let s = self.size();
-        let t = self.new_temp(s);
         let m1 = self.arith();
         let m2 = self.arith();
         let (a, b) = (self.input(s, 0), self.input(s, 1));
         let c = self.input(s, 1);
+        let t = self.new_temp(s); // created after the inputs are chosen: a temporary is never read before it is written
         let first = bin(t.clone(), m1, a, b);
         let second = if self.rng.chance(1, 2) { bin(self.output(s), m2, t, c) } else { bin(self.output(s), m2, c, t) };
         vec![first, second]
